@@ -4,8 +4,12 @@
 (*                                                                         *)
 (* An object store of pipelines.  Every live object is                     *)
 (*     [sem    : description (PipelineStatic / MapDenote) in the ORIGINAL  *)
-(*               names - the names the user functions were written with;   *)
-(*               term heads are original output names and never change,    *)
+(*               names - the names the user functions were written with    *)
+(*               (when a join brings together two descendants of one       *)
+(*               pipeline under different spellings, the second operand's  *)
+(*               clashing names are tagged "name~id"),                     *)
+(*      heads  : output name of sem -> the term head its function writes   *)
+(*               (the original output name; identity unless tagged),       *)
 (*      ren    : renaming, a function original name -> [scope, base]; the  *)
 (*               name the user currently sees is  scope "." base,          *)
 (*      outs   : retained outputs (original names): outputs the object     *)
@@ -71,7 +75,8 @@ WellFormedDesc(d) == OutputsUnique(d) /\ Acyclic(d) /\ DefaultsConsistent(d)
 
 ---------------------------------------------------------------------------
 (* Objects *)
-Fresh(d) == [sem |-> d, ren |-> ForceFn([n \in DescNames(d) |-> Plain(n)]), outs |-> AllOutputs(d), merged |-> FALSE]
+Fresh(d) == [sem |-> d, ren |-> ForceFn([n \in DescNames(d) |-> Plain(n)]), outs |-> AllOutputs(d), merged |-> FALSE,
+             heads |-> ForceFn([n \in AllOutputs(d) |-> n])]
 CurName(o, n)  == Cur(o.ren[n])
 CurSet(o, S)   == {CurName(o, n) : n \in S}
 HasCur(o, c)   == \E n \in DOMAIN o.ren : CurName(o, n) = c
@@ -86,6 +91,7 @@ ParamScopes(o) == {o.ren[n].scope : n \in AllParams(o.sem) \cap Visible(o)} \ {"
 (* validate_scopes: a scope may not be spelled like a name *)
 ScopesOK(o)    == ParamScopes(o) \cap CurSet(o, Visible(o)) = {}
 ObjOK(o)       == /\ WellFormedDesc(o.sem) /\ DOMAIN o.ren = DescNames(o.sem) /\ Injective(o.ren)
+                  /\ DOMAIN o.heads = AllOutputs(o.sem)
                   /\ o.outs \subseteq AllOutputs(o.sem) /\ ScopesOK(o)
 
 (* the description as the user currently sees it (every name renamed; term heads are NOT part of a description) *)
@@ -119,8 +125,9 @@ LawDenoteE(d, inp) == LET e == MapDenoteE(d, inp)  m == MapDenote(d, inp) IN DOM
 (* The observation: what object o returns for output `out` (current name) on `inp` (pairs current name -> value). *)
 UnrenPairs(o, ps) == ForceSeq([k \in DOMAIN ps |-> <<OrigOf(o, ps[k][1]), ps[k][2]>>])
 NamesKnown(o, ps) == \A k \in DOMAIN ps : HasCur(o, ps[k][1])
-EvalCall(o, out, inp) == Eval(o.sem, UnrenPairs(o, inp), OrigOf(o, out))
-EvalMap(o, inp)       == MapDenoteE(o.sem, UnrenPairs(o, inp))               \* function on original names
+EvalCall(o, out, inp) == RenTerm(Eval(o.sem, UnrenPairs(o, inp), OrigOf(o, out)), o.heads)
+EvalMap(o, inp)       == LET den == MapDenoteE(o.sem, UnrenPairs(o, inp))     \* function on the output names of sem
+                         IN  [n \in AllOutputs(o.sem) |-> RenTerm(den[n], o.heads)]
 EvalObs(o, out, inp, mode) == IF mode = "call" THEN EvalCall(o, out, inp) ELSE EvalMap(o, inp)[OrigOf(o, out)]
 (* the request is one the property speaks about *)
 ObsRequestOK(o, out, inp, mode) ==
@@ -133,14 +140,23 @@ StructOf(o) == [outs |-> CurSet(o, o.outs), roots |-> CurSet(o, FreeRoots(o.sem)
 ---------------------------------------------------------------------------
 (* Rewrite operators on objects (pure) and when each is defined. *)
 
-(* join / | *)
-JoinObj(p, q) == [sem |-> [funcs |-> p.sem.funcs \o q.sem.funcs], ren |-> p.ren @@ q.ren,
-                  outs |-> p.outs \cup q.outs, merged |-> p.merged \/ q.merged]
-JoinDefined(p, q) ==
-    /\ AllOutputs(p.sem) \cap AllOutputs(q.sem) = {}
-    /\ \A n \in DOMAIN p.ren \cap DOMAIN q.ren : p.ren[n] = q.ren[n]        \* one name, one spelling
-    /\ Hidden(p) \cap DescNames(q.sem) = {} /\ Hidden(q) \cap DescNames(p.sem) = {}
-    /\ ObjOK(JoinObj(p, q))
+(* join / |.  The join connects by CURRENT spelling: a name of q spelled like a name of p is that name; a name of q *)
+(* that p spells differently is a different thing that merely descends from the same function text (two copies of one *)
+(* pipeline under two scopes) and is tagged apart before the descriptions are put together.                          *)
+TagMap(p, q, id) == ForceFn([n \in DOMAIN q.ren |->
+                        IF HasCur(p, Cur(q.ren[n])) THEN OrigOf(p, Cur(q.ren[n]))
+                        ELSE IF n \in DOMAIN p.ren THEN n \o "~" \o ToString(id) ELSE n])
+Tagged(q, tm)    == [sem |-> RenameDesc(q.sem, tm), ren |-> ForceFn([m \in {tm[n] : n \in DOMAIN q.ren} |-> q.ren[CHOOSE n \in DOMAIN q.ren : tm[n] = m]]),
+                     outs |-> {tm[n] : n \in q.outs}, merged |-> q.merged,
+                     heads |-> ForceFn([m \in {tm[n] : n \in DOMAIN q.heads} |-> q.heads[CHOOSE n \in DOMAIN q.heads : tm[n] = m]])]
+JoinPlain(p, q) == [sem |-> [funcs |-> p.sem.funcs \o q.sem.funcs], ren |-> p.ren @@ q.ren,
+                    outs |-> p.outs \cup q.outs, merged |-> p.merged \/ q.merged, heads |-> p.heads @@ q.heads]
+JoinObj(p, q, id) == JoinPlain(p, Tagged(q, TagMap(p, q, id)))
+JoinDefined(p, q, id) ==
+    LET q2 == Tagged(q, TagMap(p, q, id)) IN
+    /\ AllOutputs(p.sem) \cap AllOutputs(q2.sem) = {}
+    /\ Hidden(p) \cap DescNames(q2.sem) = {} /\ Hidden(q2) \cap DescNames(p.sem) = {}
+    /\ ObjOK(JoinPlain(p, q2))
 
 (* update_renames: r = pairs  current name -> NameRec *)
 RenUpdate(o, r) == ForceFn([n \in DOMAIN o.ren |-> IF PHas(r, CurName(o, n)) THEN PGet(r, CurName(o, n)) ELSE o.ren[n]])
@@ -208,7 +224,8 @@ CompOf(d, S) == LET S2 == S \cup {j \in FIdx(d) : \E i \in S : Link(d, i, j)} IN
 Components(d) == {CompOf(d, {i}) : i \in FIdx(d)}
 SubDesc(d, C) == LET idx == SelectSeq([i \in 1..NF(d) |-> i], LAMBDA i : i \in C) IN [funcs |-> ForceSeq([k \in DOMAIN idx |-> d.funcs[idx[k]]])]
 PartObj(o, C) == LET sd == SubDesc(o.sem, C)
-                 IN  [sem |-> sd, ren |-> ForceFn([n \in DescNames(sd) |-> o.ren[n]]), outs |-> o.outs \cap AllOutputs(sd), merged |-> o.merged]
+                 IN  [sem |-> sd, ren |-> ForceFn([n \in DescNames(sd) |-> o.ren[n]]), outs |-> o.outs \cap AllOutputs(sd), merged |-> o.merged,
+                      heads |-> ForceFn([n \in AllOutputs(sd) |-> o.heads[n]])]
 SplitMustAccept(o) == Cardinality(Components(o.sem)) >= 2
 
 (* add_mapspec_axis(p, axis = k): every function that depends on p is mapped over the new axis k; a parameter that   *)
@@ -268,8 +285,8 @@ Without(id) == [b \in Live \ {id} |-> objs[b]]
 New(id, desc)            == id \notin Live /\ ObjOK(Fresh(desc)) /\ Step("new", {id}, Put(id, Fresh(desc)))
 Copy(a, id)              == a \in Live /\ id \notin Live /\ Step("copy", {id}, Put(id, objs[a]))
 PickleRoundTrip(a, id)   == a \in Live /\ id \notin Live /\ Step("pickle", {id}, Put(id, objs[a]))
-Join(a, b, id)           == /\ a \in Live /\ b \in Live /\ id \notin Live /\ JoinDefined(objs[a], objs[b])
-                            /\ Step("join", {id}, Put(id, JoinObj(objs[a], objs[b])))
+Join(a, b, id)           == /\ a \in Live /\ b \in Live /\ id \notin Live /\ JoinDefined(objs[a], objs[b], id)
+                            /\ Step("join", {id}, Put(id, JoinObj(objs[a], objs[b], id)))
 UpdateRenames(a, r)      == a \in Live /\ RenamesDefined(objs[a], r) /\ Step("update_renames", {a}, Put(a, RenamedObj(objs[a], r)))
 UpdateScope(a, s, ins, outs, exc) == /\ a \in Live /\ s # "" /\ ScopeDefined(objs[a], s, ins, outs, exc)
                                      /\ Step("update_scope", {a}, Put(a, ScopedObj(objs[a], s, ins, outs, exc)))
@@ -319,7 +336,7 @@ LawRenameCall(o, kw, out) == Eval(CurDesc(o), RenKw(o, kw), CurName(o, out)) = R
 LawRenameMap(o, inp) == LET den == MapDenoteE(CurDesc(o), RenKw(o, inp))  den0 == MapDenoteE(o.sem, inp)
                         IN  \A n \in AllOutputs(o.sem) : den[CurName(o, n)] = RenTerm(den0[n], CurMap(o))
 (* ... and the observation defined through o.ren is the same thing *)
-LawObsCall(o, kw, out) == EvalObs(o, CurName(o, out), RenKw(o, kw), "call") = Eval(o.sem, kw, out)
+LawObsCall(o, kw, out) == EvalObs(o, CurName(o, out), RenKw(o, kw), "call") = RenTerm(Eval(o.sem, kw, out), o.heads)
 (* scope removal inverts scope addition (on names that had no scope) *)
 AllSel == [all |-> TRUE, names |-> << >>]
 LawScopeInverse(o, s) == (ScopeDefined(o, s, AllSel, AllSel, << >>) /\ \A n \in DOMAIN o.ren : o.ren[n].scope = "")
@@ -328,7 +345,7 @@ LawScopeInverse(o, s) == (ScopeDefined(o, s, AllSel, AllSel, << >>) /\ \A n \in 
 LawSplit(o, kw) == \A C \in Components(o.sem) : \A out \in OutputsOfSet(o.sem, C) :
                       Eval(SubDesc(o.sem, C), kw, out) = Eval(o.sem, kw, out)
 (* the operands of a join evaluate in the join as before when given their own root arguments *)
-LawJoin(p, q, kw) == \A out \in AllOutputs(p.sem) : Eval(JoinObj(p, q).sem, kw, out) = Eval(p.sem, kw, out)
+LawJoin(p, q, id, kw) == \A out \in AllOutputs(p.sem) : Eval(JoinObj(p, q, id).sem, kw, out) = Eval(p.sem, kw, out)
 (* add_mapspec_axis lifts pointwise: with p := vs (an array along k), every output that depends on p gains k as its   *)
 (* last axis and its slice n is the original result for p = vs[n]; every other output is unchanged.  inp holds every  *)
 (* other input (and may hold p, which is overridden)                                                              *)
